@@ -124,6 +124,7 @@ func genC07BGV(c *Ctx) {
 	sets := c07Sets(c.Thorough())
 	reps := c.Scale(3, 30)
 	for _, s := range sets {
+		c.c07Embed(s, c.Scale(1, 6))
 		t := s.t
 		rt := s.params.RingT()
 		rq := s.params.RingQ()
